@@ -165,6 +165,10 @@ func (r *foRun) c03Cell() string {
 		state += "(expired without item)"
 	}
 
+	if sc.ExpireAllFirst {
+		state += "(ExpireAll before Get)"
+	}
+
 	return fmt.Sprintf("%s failCached=%v syncUpdate=%v failHard=%v maxStaleness=%v failedTTL=%d buildErr=%v api=%s",
 		state, in.FailAgeNs >= 0, sc.Cfg.SyncUpdate, sc.Cfg.FailHard, sc.Cfg.MaxStalenessNs > 0, sc.Cfg.FailedUpdateTTLNs, sc.Clients[0][0].BuildFail, sc.API+"/"+sc.Backend)
 }
